@@ -1,4 +1,5 @@
 import SJ.Proofs.FromValue
+import SJ.Model.FromValueRoutes
 /-!
 # C16 — `from_value` agrees with the text deserialiser
 
@@ -124,5 +125,15 @@ example : fromValue {} {} (.map (.int .u8) .bool) (.obj [([0x31, 0x32], .bool tr
 example : fromValue {} {} (.map (.int .u8) .bool) (.obj [([0x30, 0x31], .bool true)]) = .error () := by rfl
 example : fromValue {} {} (.map (.int .u8) .bool) (.obj [([0x32, 0x35, 0x36], .bool true)]) = .error () := by rfl
 example : fromValue {} {} (.map (.int .i8) .bool) (.obj [([0x2d, 0x30], .bool true)]) = .error () := by rfl
+
+/-- The tie to the source: the routing of `src/value/de.rs` regenerated by `tools/extract.py` on this run
+    (which method delegates to which, which `Value` constructors each method accepts and what it calls,
+    which methods are macro-defined or forwarded to `deserialize_any`, the leftover checks, the numeric-key
+    guard) is the routing the two transcriptions were written against. -/
+theorem c16_routing_tied : RoutingTied := by
+  refine ⟨rfl, rfl, rfl, rfl, rfl, rfl, rfl, rfl, rfl, rfl, rfl, rfl, rfl⟩
+
+example : (SJ.Gen.routeOwned.lookup "deserialize_char") = some "->deserialize_string" := by rfl
+example : (SJ.Gen.routeRef.lookup "deserialize_char") = some "->deserialize_str" := by rfl
 
 end SJ.Props.C16
